@@ -27,6 +27,7 @@ func c11Legs(tier, o string) []pairLeg {
 		add("hostile", HostileDocs())
 		add("deep", Deep(true))
 		add("large", Large())
+		add("hostile2", HostileDocs2())
 		add("numbers", NumDocs())
 		add("strings", StrDocs())
 		add("mixed", Mixed())
@@ -38,6 +39,7 @@ func c11Legs(tier, o string) []pairLeg {
 		add("hostile", thin(HostileDocs(), 150))
 		add("deep", Deep(true))
 		add("large", Large())
+		add("hostile2", HostileDocs2())
 		add("numbers", NumDocs())
 		add("strings", StrDocs())
 		add("mixed", Mixed())
